@@ -43,7 +43,8 @@ var targets = []target{
 	{dir: ".", files: []string{"message.go", "replay.go"}, funcs: []string{"isSingleLine", "topicsIntersect",
 		"queue.enqueue", "queue.dequeue", "queue.resize"}, out: "Root"},
 	{dir: ".", files: []string{"message.go", "message_fields.go"}, funcs: []string{"newMessageField", "messageField.IsSet",
-		"messageField.String", "messageField.UnmarshalText", "NewID", "NewType"}, out: "Fields"},
+		"messageField.String", "messageField.UnmarshalText", "NewID", "NewType",
+		"Message.appendText", "Message.AppendData", "Message.AppendComment"}, out: "Fields"},
 }
 
 func die(pos token.Position, format string, a ...any) {
@@ -142,7 +143,7 @@ func (t *tr) leanType(ty types.Type, at ast.Node) string {
 		return t.leanType(u.Underlying(), at)
 	case *types.Basic:
 		switch u.Kind() {
-		case types.Int, types.UntypedInt:
+		case types.Int, types.Int64, types.UntypedInt:
 			return "Int"
 		case types.Uint8, types.UntypedRune:
 			return "UInt8"
@@ -203,6 +204,15 @@ func (t *tr) zero(ty types.Type, at ast.Node) string {
 	return ""
 }
 
+// fieldName: Lean name of a struct field (Lean keywords get a prime)
+func fieldName(n string) string {
+	switch n {
+	case "Type", "Sort", "Prop", "end", "from", "at", "fun", "then", "open", "in", "do", "by", "this", "local", "instance", "structure", "class", "where", "with", "match", "if", "else", "let", "have", "show":
+		return n + "'"
+	}
+	return n
+}
+
 // structLit: a struct value with the given field values, zero values elsewhere
 func (t *tr) structLit(n *types.Named, st *types.Struct, vals map[string]string, at ast.Node) string {
 	t.leanType(n, at) // records the structure
@@ -213,7 +223,7 @@ func (t *tr) structLit(n *types.Named, st *types.Struct, vals map[string]string,
 		if !ok {
 			v = t.zero(f.Type(), at)
 		}
-		fs = append(fs, f.Name()+" := "+v)
+		fs = append(fs, fieldName(f.Name())+" := "+v)
 	}
 	return "({ " + strings.Join(fs, ", ") + " } : " + n.Obj().Name() + ")"
 }
@@ -297,7 +307,7 @@ func (t *tr) expr(e *em, x ast.Expr) string {
 	case *ast.SelectorExpr:
 		// field of the receiver / an in-out struct
 		if sel, ok := t.info.Selections[v]; ok && sel.Kind() == types.FieldVal {
-			return "(" + t.expr(e, v.X) + ")." + v.Sel.Name
+			return "(" + t.expr(e, v.X) + ")." + fieldName(v.Sel.Name)
 		}
 		die(t.pos(x), "selector %s", types.ExprString(x))
 	case *ast.UnaryExpr:
@@ -439,6 +449,15 @@ func (t *tr) call(e *em, v *ast.CallExpr) string {
 	case "min":
 		if len(v.Args) == 2 {
 			return "(min " + t.expr(e, v.Args[0]) + " " + t.expr(e, v.Args[1]) + ")"
+		}
+	case "append":
+		if !v.Ellipsis.IsValid() && len(v.Args) >= 1 {
+			base := t.expr(e, v.Args[0])
+			var els []string
+			for _, a := range v.Args[1:] {
+				els = append(els, t.expr(e, a))
+			}
+			return "(" + base + " ++ [" + strings.Join(els, ", ") + "])"
 		}
 	case "errors.New", "fmt.Errorf":
 		// an error value is identified by its (format) text; wrapping is not modelled
@@ -698,7 +717,7 @@ func (t *tr) assignTo(e *em, lhs ast.Expr, val string, define bool) {
 		}
 		o := t.info.Uses[base]
 		n := t.nameOf(o)
-		e.line("let %s := { %s with %s := %s }", n, n, l.Sel.Name, val)
+		e.line("let %s := { %s with %s := %s }", n, n, fieldName(l.Sel.Name), val)
 	case *ast.StarExpr:
 		// *p = v where p is a pointer receiver / parameter: the in/out value is replaced
 		id, ok := l.X.(*ast.Ident)
@@ -1027,7 +1046,13 @@ func (t *tr) stmts(e *em, list []ast.Stmt, up *kont, lc *loopCtx) {
 			die(t.pos(s), "range with =")
 		}
 		inner := &loopCtx{outer: lc, hid: t.fresh("i")}
-		inner.state = t.assigned(v.Body)
+		for _, sv := range t.assigned(v.Body) {
+			// the value variable is bound anew in every iteration: not part of the loop's state
+			if id, ok := v.Value.(*ast.Ident); ok && t.info.Defs[id] == types.Object(sv) {
+				continue
+			}
+			inner.state = append(inner.state, sv)
+		}
 		t.loop(e, inner, nil, v, v.Body, k, lc)
 	default:
 		t.simple(e, s)
@@ -1323,7 +1348,7 @@ func (t *tr) structDecl(out *em, name string, st *types.Struct) {
 		out.line("structure %s %s where", name, t.genericBinders[name])
 		for i := 0; i < st.NumFields(); i++ {
 			f := st.Field(i)
-			out.line("  %s : %s", f.Name(), t.leanType(f.Type(), nil))
+			out.line("  %s : %s", fieldName(f.Name()), t.leanType(f.Type(), nil))
 		}
 		out.line("")
 		return
@@ -1331,7 +1356,7 @@ func (t *tr) structDecl(out *em, name string, st *types.Struct) {
 	out.line("structure %s where", name)
 	for i := 0; i < st.NumFields(); i++ {
 		f := st.Field(i)
-		out.line("  %s : %s", f.Name(), t.leanType(f.Type(), nil))
+		out.line("  %s : %s", fieldName(f.Name()), t.leanType(f.Type(), nil))
 	}
 	out.line("deriving DecidableEq, Repr")
 	out.line("")
@@ -1434,7 +1459,17 @@ func main() {
 			done[n] = true
 			st := t.structs[n]
 			for i := 0; i < st.NumFields(); i++ {
-				if fn, ok := st.Field(i).Type().(*types.Named); ok {
+				ft := st.Field(i).Type()
+				for {
+					if sl, ok := ft.(*types.Slice); ok {
+						ft = sl.Elem()
+					} else if pt, ok := ft.(*types.Pointer); ok {
+						ft = pt.Elem()
+					} else {
+						break
+					}
+				}
+				if fn, ok := ft.(*types.Named); ok {
 					if _, ok := t.structs[fn.Obj().Name()]; ok {
 						emit(fn.Obj().Name())
 					}
